@@ -28,6 +28,7 @@ type astItem struct {
 	Name string `json:"name"`
 	RHS  string `json:"rhs"`
 	Neg  bool   `json:"neg"`
+	Big  bool   `json:"big"` // the number written does not fit the 32-bit value word: no encoding exists
 }
 
 type astName struct {
@@ -230,6 +231,14 @@ func (e *ruleEnv) filterFor(field, op, vclass string) (arg string, it astItem, i
 	mk := func(text string, item astItem) (string, astItem, bool, string) {
 		return field + op + text, item, inC07, arch
 	}
+	if vclass == "overflow" {
+		// just outside what a 32-bit value word can hold
+		text := []string{"4294967296", "4294967297", "0x100000000", "-2147483649", "99999999999", "-4294967296", "18446744073709551616"}[r.Intn(7)]
+		it := numItem(field, op, 0)
+		it.Big = true
+		inC07 = false
+		return mk(text, it)
+	}
 	switch field {
 	case "uid", "euid", "suid", "fsuid", "auid", "obj_uid", "gid", "egid", "sgid", "fsgid", "obj_gid":
 		switch vclass {
@@ -392,6 +401,24 @@ func (e *ruleEnv) syscallShape(rt *ruleText, shape, arch string) {
 	case "none":
 	case "all":
 		add("all")
+	case "all_then", "then_all":
+		// "all" next to specific syscalls: every syscall is asked for, whatever the order
+		n := strconv.Itoa(r.Intn(400))
+		if shape == "all_then" {
+			if r.Intn(2) == 0 {
+				add("all," + n)
+			} else {
+				add("all")
+				add(n)
+			}
+		} else {
+			if r.Intn(2) == 0 {
+				add(n + ",all")
+			} else {
+				add(n)
+				add("all")
+			}
+		}
 	case "one":
 		n := r.Intn(2048)
 		sc.All, sc.Nums = false, []int{n}
@@ -620,7 +647,7 @@ func (e *ruleEnv) randomRule() *ruleText {
 	}[list]
 	vclasses := map[string][]string{
 		"uid": {"zero", "small", "max31", "high", "unset", "minus1", "name_root"}, "str": {"short", "long", "special", "utf8"},
-		"num": {"zero", "one", "dec", "hex", "neg", "max"}, "exit": {"zero", "pos", "neg", "errno_neg", "errno_pos", "min"},
+		"num": {"zero", "one", "dec", "hex", "neg", "max", "overflow"}, "exit": {"zero", "pos", "neg", "errno_neg", "errno_pos", "min"},
 		"msgtype": {"num", "name", "high"}, "arch": {"b64", "b32", "x86_64", "i386", "aarch64", "arm", "ppc64", "s390x"},
 		"perm": {"r", "w", "x", "a", "rw", "wa", "rwxa"}, "filetype": {"file", "dir", "socket", "symlink", "char", "block", "fifo"},
 		"saddr_fam": {"two", "ten"},
@@ -661,7 +688,7 @@ func (e *ruleEnv) randomRule() *ruleText {
 		rt.ast.Items = append(rt.ast.Items, it)
 	}
 	if (list == "exit" || list == "task") && r.Intn(3) > 0 {
-		e.syscallShape(rt, []string{"all", "one", "many", "names64", "high", "none"}[r.Intn(6)], arch)
+		e.syscallShape(rt, []string{"all", "one", "many", "names64", "high", "none", "all_then", "then_all"}[r.Intn(8)], arch)
 	}
 	if list != "exclude" {
 		e.addKeys(rt, r.Intn(4), false)
